@@ -7,14 +7,14 @@
 #[macro_export]
 macro_rules! quick_cells {
     ($cb:ident, $group:ident, $body:path) => {
-        $cb!($group, w_pp, $body, [P, P], 0);
-        $cb!($group, b_pp, $body, [P, P], 1);
-        $cb!($group, w_pr, $body, [P, R], 0);
-        $cb!($group, b_pr, $body, [P, R], 1);
-        $cb!($group, w_nq, $body, [N, Q], 0);
-        $cb!($group, b_nq, $body, [N, Q], 1);
-        $cb!($group, w_br, $body, [B, R], 0);
-        $cb!($group, b_br, $body, [B, R], 1);
+        $cb!($group, w_pp, $body, [P, P], 0, true);
+        $cb!($group, b_pp, $body, [P, P], 1, true);
+        $cb!($group, w_pr, $body, [P, R], 0, true);
+        $cb!($group, b_pr, $body, [P, R], 1, true);
+        $cb!($group, w_nq, $body, [N, Q], 0, true);
+        $cb!($group, b_nq, $body, [N, Q], 1, true);
+        $cb!($group, w_br, $body, [B, R], 0, true);
+        $cb!($group, b_br, $body, [B, R], 1, true);
     };
 }
 
@@ -22,28 +22,28 @@ macro_rules! quick_cells {
 #[macro_export]
 macro_rules! deep2_cells {
     ($cb:ident, $group:ident, $body:path) => {
-        $cb!($group, w_pn, $body, [P, N], 0);
-        $cb!($group, b_pn, $body, [P, N], 1);
-        $cb!($group, w_pb, $body, [P, B], 0);
-        $cb!($group, b_pb, $body, [P, B], 1);
-        $cb!($group, w_pq, $body, [P, Q], 0);
-        $cb!($group, b_pq, $body, [P, Q], 1);
-        $cb!($group, w_nn, $body, [N, N], 0);
-        $cb!($group, b_nn, $body, [N, N], 1);
-        $cb!($group, w_nb, $body, [N, B], 0);
-        $cb!($group, b_nb, $body, [N, B], 1);
-        $cb!($group, w_nr, $body, [N, R], 0);
-        $cb!($group, b_nr, $body, [N, R], 1);
-        $cb!($group, w_bb, $body, [B, B], 0);
-        $cb!($group, b_bb, $body, [B, B], 1);
-        $cb!($group, w_bq, $body, [B, Q], 0);
-        $cb!($group, b_bq, $body, [B, Q], 1);
-        $cb!($group, w_rr, $body, [R, R], 0);
-        $cb!($group, b_rr, $body, [R, R], 1);
-        $cb!($group, w_rq, $body, [R, Q], 0);
-        $cb!($group, b_rq, $body, [R, Q], 1);
-        $cb!($group, w_qq, $body, [Q, Q], 0);
-        $cb!($group, b_qq, $body, [Q, Q], 1);
+        $cb!($group, w_pn, $body, [P, N], 0, true);
+        $cb!($group, b_pn, $body, [P, N], 1, true);
+        $cb!($group, w_pb, $body, [P, B], 0, true);
+        $cb!($group, b_pb, $body, [P, B], 1, true);
+        $cb!($group, w_pq, $body, [P, Q], 0, true);
+        $cb!($group, b_pq, $body, [P, Q], 1, true);
+        $cb!($group, w_nn, $body, [N, N], 0, true);
+        $cb!($group, b_nn, $body, [N, N], 1, true);
+        $cb!($group, w_nb, $body, [N, B], 0, true);
+        $cb!($group, b_nb, $body, [N, B], 1, true);
+        $cb!($group, w_nr, $body, [N, R], 0, true);
+        $cb!($group, b_nr, $body, [N, R], 1, true);
+        $cb!($group, w_bb, $body, [B, B], 0, true);
+        $cb!($group, b_bb, $body, [B, B], 1, true);
+        $cb!($group, w_bq, $body, [B, Q], 0, true);
+        $cb!($group, b_bq, $body, [B, Q], 1, true);
+        $cb!($group, w_rr, $body, [R, R], 0, true);
+        $cb!($group, b_rr, $body, [R, R], 1, true);
+        $cb!($group, w_rq, $body, [R, Q], 0, true);
+        $cb!($group, b_rq, $body, [R, Q], 1, true);
+        $cb!($group, w_qq, $body, [Q, Q], 0, true);
+        $cb!($group, b_qq, $body, [Q, Q], 1, true);
     };
 }
 
@@ -51,22 +51,22 @@ macro_rules! deep2_cells {
 #[macro_export]
 macro_rules! deep3_cells {
     ($cb:ident, $group:ident, $body:path) => {
-        $cb!($group, w_ppr, $body, [P, P, R], 0);
-        $cb!($group, b_ppr, $body, [P, P, R], 1);
-        $cb!($group, w_ppb, $body, [P, P, B], 0);
-        $cb!($group, b_ppb, $body, [P, P, B], 1);
-        $cb!($group, w_ppq, $body, [P, P, Q], 0);
-        $cb!($group, b_ppq, $body, [P, P, Q], 1);
-        $cb!($group, w_ppn, $body, [P, P, N], 0);
-        $cb!($group, b_ppn, $body, [P, P, N], 1);
-        $cb!($group, w_brr, $body, [B, R, R], 0);
-        $cb!($group, b_brr, $body, [B, R, R], 1);
-        $cb!($group, w_nrq, $body, [N, R, Q], 0);
-        $cb!($group, b_nrq, $body, [N, R, Q], 1);
-        $cb!($group, w_prq, $body, [P, R, Q], 0);
-        $cb!($group, b_prq, $body, [P, R, Q], 1);
-        $cb!($group, w_nbq, $body, [N, B, Q], 0);
-        $cb!($group, b_nbq, $body, [N, B, Q], 1);
+        $cb!($group, w_ppr, $body, [P, P, R], 0, true);
+        $cb!($group, b_ppr, $body, [P, P, R], 1, true);
+        $cb!($group, w_ppb, $body, [P, P, B], 0, true);
+        $cb!($group, b_ppb, $body, [P, P, B], 1, true);
+        $cb!($group, w_ppq, $body, [P, P, Q], 0, true);
+        $cb!($group, b_ppq, $body, [P, P, Q], 1, true);
+        $cb!($group, w_ppn, $body, [P, P, N], 0, true);
+        $cb!($group, b_ppn, $body, [P, P, N], 1, true);
+        $cb!($group, w_brr, $body, [B, R, R], 0, true);
+        $cb!($group, b_brr, $body, [B, R, R], 1, true);
+        $cb!($group, w_nrq, $body, [N, R, Q], 0, true);
+        $cb!($group, b_nrq, $body, [N, R, Q], 1, true);
+        $cb!($group, w_prq, $body, [P, R, Q], 0, true);
+        $cb!($group, b_prq, $body, [P, R, Q], 1, true);
+        $cb!($group, w_nbq, $body, [N, B, Q], 0, true);
+        $cb!($group, b_nbq, $body, [N, B, Q], 1, true);
     };
 }
 
@@ -74,18 +74,33 @@ macro_rules! deep3_cells {
 #[macro_export]
 macro_rules! tiny_cells {
     ($cb:ident, $group:ident, $body:path) => {
-        $cb!($group, w_kk, $body, [], 0);
-        $cb!($group, b_kk, $body, [], 1);
-        $cb!($group, w_p, $body, [P], 0);
-        $cb!($group, b_p, $body, [P], 1);
-        $cb!($group, w_n, $body, [N], 0);
-        $cb!($group, b_n, $body, [N], 1);
-        $cb!($group, w_b, $body, [B], 0);
-        $cb!($group, b_b, $body, [B], 1);
-        $cb!($group, w_r, $body, [R], 0);
-        $cb!($group, b_r, $body, [R], 1);
-        $cb!($group, w_q, $body, [Q], 0);
-        $cb!($group, b_q, $body, [Q], 1);
+        $cb!($group, w_kk, $body, [], 0, true);
+        $cb!($group, b_kk, $body, [], 1, true);
+        $cb!($group, w_p, $body, [P], 0, true);
+        $cb!($group, b_p, $body, [P], 1, true);
+        $cb!($group, w_n, $body, [N], 0, true);
+        $cb!($group, b_n, $body, [N], 1, true);
+        $cb!($group, w_b, $body, [B], 0, true);
+        $cb!($group, b_b, $body, [B], 1, true);
+        $cb!($group, w_r, $body, [R], 0, true);
+        $cb!($group, b_r, $body, [R], 1, true);
+        $cb!($group, w_q, $body, [Q], 0, true);
+        $cb!($group, b_q, $body, [Q], 1, true);
+    };
+}
+
+/// "exact, opposed" cells: every piece of K present, colours alternating white/black in list order.  A
+/// sub-case of the optional cell of the same K (about half its cost), used in the quick tier for the
+/// two-rook and two-pawn interplay (rook takes rook on its home square, en passant).
+#[macro_export]
+macro_rules! exact_cells {
+    ($cb:ident, $group:ident, $body:path) => {
+        $cb!($group, w_xrr, $body, [R, R], 0, false);
+        $cb!($group, b_xrr, $body, [R, R], 1, false);
+        $cb!($group, w_xpp, $body, [P, P], 0, false);
+        $cb!($group, b_xpp, $body, [P, P], 1, false);
+        $cb!($group, w_xrq, $body, [R, Q], 0, false);
+        $cb!($group, b_xrq, $body, [R, Q], 1, false);
     };
 }
 
